@@ -13,7 +13,7 @@ KEEP = ("i", "print")
 def record(binary, src, prog=None, max_events=6000, timeout=8, mode="run"):
     """Execute `src` (a path) with hooks; returns a TraceVMV case or (None, reason)."""
     src = Path(src)
-    r, events, funcs, partial = corpus.run_traced(binary, src, mode, timeout=timeout, max_events=max_events)
+    r, events, funcs, partial = corpus.run_traced(binary, src, mode, timeout=timeout, max_events=max_events, top=True)
     if partial or r["timeout"]:
         return None, "partial trace (timeout / crash / too long)"
     if not events or not funcs:
@@ -32,7 +32,10 @@ def record(binary, src, prog=None, max_events=6000, timeout=8, mode="run"):
             fi = index.get(e["fn"])
             if fi is None:
                 return None, "trace names a function that is not in the dump"
-            evs.append(dict(e="i", fi=fi, ip=e["ip"], op=e["op"], fd=e["fd"], od=e["od"], ad=e["ad"]))
+            ev = dict(e="i", fi=fi, ip=e["ip"], op=e["op"], fd=e["fd"], od=e["od"], ad=e["ad"])
+            if "top" in e:
+                ev["top"] = e["top"]
+            evs.append(ev)
         elif k == "print":
             evs.append(dict(e="print", kind=e.get("kind", ""), text=e.get("text", "")))
     if entry is None:
